@@ -36,6 +36,8 @@ CHECKS = {
          "every GetAssetPrice / GetAssetPriceFromDenom answer for an adversarial name set is compared with a reference map built from the observed successful feeds and the end-block expiry rule; the whole price store must equal the reference after every block; every feed is judged against the reference feeder set", "6/C16", TB),
  "C04": ("exploration", "settlement-pattern monitor over balance snapshots at pre-message, post-tx and around the AMM end-blocker",
          "every attributable swap request (all three message types, 1- and 2-hop, foreign recipients, batches with opposite directions and limits) must show either the executed pattern (exact debit / debit <= max, credit >= min / output, no unstated debit) or no movement at all; nothing moves at acceptance time; the transient queue is empty after the batch; idle blocks move nothing", "6/C04", TB),
+ "C10": ("exploration", "boundary-diff monitor + entry-by-entry replay of close-positions lists and of the leveragelp sweep on a discarded branch",
+         "every change of a position by a non-owner (bot message or chain sweep) must be justified by health <= safety factor or a reached stop-loss / take-profit measured immediately before that entry's turn; un-named and unjustified positions and their owners' balances stay as they were; every successful open (also via order execution) leaves stored and recomputed health above the safety factor", "6/C10", TB),
 }
 
 m = {"version": 1, "setup_cmd": "./setup.sh",
